@@ -434,15 +434,19 @@ def check_property(prop, tier='quick', seed=0, only=None):
         extra_seeds = []
         if tier == 'thorough':
             n = int(os.environ.get('PYVC_THOROUGH_SEEDS', '8'))
+            import inspect
+            if 'part' not in inspect.signature(mod.bounded).parameters:
+                # modules that do not partition an exhaustive enumeration over the runs get several rounds of seeds (the pool runs 8 at a time)
+                n *= int(os.environ.get('PYVC_THOROUGH_ROUNDS', '3'))
             extra_seeds = [seed + 1000 * i for i in range(1, n)]
         if extra_seeds:
             # thorough: the same bounded exploration with further seeds, in parallel processes (the seeded-random parts differ per seed, the
             # exhaustive parts are repeated); results are merged, distinct cases are counted over the union of the per-run key digests
             import multiprocessing
             ctx = multiprocessing.get_context('fork')
-            with ctx.Pool(min(len(extra_seeds) + 1, max(2, (os.cpu_count() or 4) // 2))) as pool:
+            with ctx.Pool(min(len(extra_seeds) + 1, max(2, (os.cpu_count() or 4) // 2)), maxtasksperchild=1) as pool:
                 allseeds = [seed] + extra_seeds
-                runs = pool.map(_bounded_worker, [(prop, tier, sd, (i, len(allseeds))) for i, sd in enumerate(allseeds)])
+                runs = pool.map(_bounded_worker, [(prop, tier, sd, (i, len(allseeds))) for i, sd in enumerate(allseeds)], chunksize=1)
             b = merge_bounded(runs, [seed] + extra_seeds)
         else:
             b = mod.bounded(tier, seed)
